@@ -115,6 +115,8 @@ struct parker {
 	const void *want_ctx;
 	uint64_t cmd_seq, done_seq;
 	int parked, release, stop;
+	uint64_t retry_hits;	/* retry markers met in the current command while not yet parked */
+	int blocked_reported;
 	long result;		/* filled by fn */
 	void *result_p;
 	char pad[64];
@@ -277,6 +279,28 @@ static void c17_hook(int point, const void *ctx)
 {
 	struct parker *p = tl_parker;
 	if (p) {
+		/* A parker on its way to its park point is an ordinary running thread.  If it goes round a retry
+		 * loop 300 000 times while another thread sits parked inside its own operation and the subject has
+		 * not started yet, it is not being interfered with - it is waiting for the parked thread, which is
+		 * exactly what a lock-free operation must never do.  (Count of loop iterations, not time.) */
+		if (is_retry_marker(point) && point != p->want_point && __atomic_load_n(&p->armed, __ATOMIC_RELAXED) &&
+		    !st.active && ++p->retry_hits > 300000 && !p->blocked_reported) {
+			int others = 0;
+			for (int i = 0; i < NPARK; i++)
+				others += &parkers[i] != p && __atomic_load_n(&parkers[i].parked, __ATOMIC_ACQUIRE);
+			if (others) {
+				char key[128];
+				p->blocked_reported = 1;
+				snprintf(key, sizeof(key), "progress:operation-spins-behind-parked-thread:%s",
+					 vp_point_names[point] ? vp_point_names[point] : "?");
+				vp_violation(key, "flavor=%s a thread heading for park point %s went through retry marker %s more than 300000 times in one operation while %d other thread(s) were parked inside their own operation and nothing else was running: it waits for a suspended thread instead of helping it",
+					     VP_FLAVOR_NAME, vp_point_names[p->want_point] ? vp_point_names[p->want_point] : "?",
+					     vp_point_names[point] ? vp_point_names[point] : "?", others);
+				/* the run cannot be trusted to wind down (a thread may spin for ever): write the result now */
+				int rc = vp_finish();
+				_exit(rc ? rc : 1);
+			}
+		}
 		if (__atomic_load_n(&p->armed, __ATOMIC_ACQUIRE) && p->want_point == point && (!p->want_ctx || p->want_ctx == ctx)) {
 			if (p->skip > 0) {
 				p->skip--;
@@ -338,6 +362,7 @@ static void *parker_main(void *arg)
 		}
 		spins = 0;
 		last = s;
+		p->retry_hits = 0;
 		vp_rcu_online();
 		p->fn(p, p->arg);
 		vp_rcu_offline();
